@@ -89,7 +89,28 @@ func (s *stub) Announce(ctx context.Context, in *protobufcompiled.ConnectionData
 func (s *stub) Discover(ctx context.Context, in *protobufcompiled.ConnectionData, opts ...grpc.CallOption) (*protobufcompiled.ConnectedNodes, error) {
 	return &protobufcompiled.ConnectedNodes{}, nil
 }
+// transport: a call takes a little while and is abandoned when the caller's context ends first - what a real gRPC
+// client does (measured with real servers on the loopback interface: harness/cmd/grpcx)
+func transport(ctx context.Context) error {
+	select {
+	case <-ctx.Done():
+		return fmt.Errorf("rpc error: code = Canceled desc = %v", ctx.Err())
+	case <-time.After(300 * time.Microsecond):
+		return nil
+	}
+}
+
+// serve runs a handler the way the real server does: with a request context that ends when the handler returns
+func serve(f func(ctx context.Context)) {
+	ctx, cancel := context.WithCancel(context.Background())
+	defer cancel()
+	f(ctx)
+}
+
 func (s *stub) GossipVrx(ctx context.Context, in *protobufcompiled.VrxMsgGossip, opts ...grpc.CallOption) (*emptypb.Empty, error) {
+	if err := transport(ctx); err != nil {
+		return nil, err
+	}
 	cp := proto.Clone(in).(*protobufcompiled.VrxMsgGossip)
 	s.n.mu.Lock()
 	s.n.queue = append(s.n.queue, msg{src: s.src, dst: s.dst, vrx: cp})
@@ -98,6 +119,9 @@ func (s *stub) GossipVrx(ctx context.Context, in *protobufcompiled.VrxMsgGossip,
 	return &emptypb.Empty{}, nil
 }
 func (s *stub) GossipTrx(ctx context.Context, in *protobufcompiled.TrxMsgGossip, opts ...grpc.CallOption) (*emptypb.Empty, error) {
+	if err := transport(ctx); err != nil {
+		return nil, err
+	}
 	cp := proto.Clone(in).(*protobufcompiled.TrxMsgGossip)
 	s.n.mu.Lock()
 	s.n.queue = append(s.n.queue, msg{src: s.src, dst: s.dst, trx: cp})
@@ -106,6 +130,9 @@ func (s *stub) GossipTrx(ctx context.Context, in *protobufcompiled.TrxMsgGossip,
 	return &emptypb.Empty{}, nil
 }
 func (s *stub) GetVertex(ctx context.Context, in *protobufcompiled.SignedHash, opts ...grpc.CallOption) (*protobufcompiled.Vertex, error) {
+	if err := transport(ctx); err != nil {
+		return nil, err
+	}
 	return s.n.nodes[s.dst].g.Server().GetVertex(ctx, in)
 }
 
@@ -261,7 +288,9 @@ func runScenario(seed int64, idx int, kind string) (out scenarioOut) {
 			}
 			func() {
 				defer func() { recover() }()
-				x.g.Server().GossipTrx(context.Background(), &protobufcompiled.TrxMsgGossip{Trx: proto.Clone(pd).(*protobufcompiled.Transaction), Gossipers: gl})
+				serve(func(ctx context.Context) {
+					x.g.Server().GossipTrx(ctx, &protobufcompiled.TrxMsgGossip{Trx: proto.Clone(pd).(*protobufcompiled.Transaction), Gossipers: gl})
+				})
 			}()
 		}
 		nw.settle(0)
@@ -317,7 +346,9 @@ func runScenario(seed int64, idx int, kind string) (out scenarioOut) {
 			before := nw.qlen()
 			func() {
 				defer func() { recover() }()
-				nw.nodes[m.dst].g.Server().GossipTrx(context.Background(), proto.Clone(m.trx).(*protobufcompiled.TrxMsgGossip))
+				serve(func(ctx context.Context) {
+					nw.nodes[m.dst].g.Server().GossipTrx(ctx, proto.Clone(m.trx).(*protobufcompiled.TrxMsgGossip))
+				})
 			}()
 			nw.settle(before)
 			n++
@@ -451,11 +482,13 @@ func runScenario(seed int64, idx int, kind string) (out scenarioOut) {
 					viol("C15", "gossip-handler-panics", fmt.Sprint(r))
 				}
 			}()
-			if m.vrx != nil {
-				_, err = n.g.Server().GossipVrx(context.Background(), proto.Clone(m.vrx).(*protobufcompiled.VrxMsgGossip))
-			} else {
-				_, err = n.g.Server().GossipTrx(context.Background(), proto.Clone(m.trx).(*protobufcompiled.TrxMsgGossip))
-			}
+			serve(func(ctx context.Context) {
+				if m.vrx != nil {
+					_, err = n.g.Server().GossipVrx(ctx, proto.Clone(m.vrx).(*protobufcompiled.VrxMsgGossip))
+				} else {
+					_, err = n.g.Server().GossipTrx(ctx, proto.Clone(m.trx).(*protobufcompiled.TrxMsgGossip))
+				}
+			})
 		}()
 		nw.settle(before)
 		nw.mu.Lock()
@@ -543,7 +576,10 @@ func runScenario(seed int64, idx int, kind string) (out scenarioOut) {
 		bad := gossip.VerifMapVertexToProto(&vertex)
 		bad.Signature = append([]byte{}, bad.Signature...)
 		bad.Signature[0] ^= 0xff
-		_, err := nw.nodes[victim].g.Server().GossipVrx(context.Background(), &protobufcompiled.VrxMsgGossip{Vertex: bad})
+		var err error
+		serve(func(ctx context.Context) {
+			_, err = nw.nodes[victim].g.Server().GossipVrx(ctx, &protobufcompiled.VrxMsgGossip{Vertex: bad})
+		})
 		steps = append(steps, fmt.Sprintf("GCorrupt %d", victim))
 		out.human = append(out.human, fmt.Sprintf("corrupted copy (same hash, bad seal) handed to node %d -> err=%v", victim, err != nil))
 		poisoned = victim
